@@ -288,6 +288,18 @@ def _observe_pair(case, order, ctx):
         env.rm(res.out)
 
 
+def _promotes_inherited(s: dict, comps: dict, seen: frozenset = frozenset()) -> bool:
+    """True when this composition, or one it inherits from, lists an inherited property under 'required' in an inline
+    member (the shape behind KF-C15-02: the promotion is lost there and in every model composed from it)."""
+    if s.get("extra_required"):
+        return True
+    for m in s.get("allOf") or []:
+        if m.get("k") == "ref" and m["name"] in comps and m["name"] not in seen:
+            if _promotes_inherited(comps[m["name"]], comps, seen | {m["name"]}):
+                return True
+    return False
+
+
 def run(case, ctx):
     if case["kind"] == "pair":
         _run_pair(case, ctx)
@@ -378,7 +390,7 @@ def _run_composition(case, ctx):
                 if s["k"] != "object" or not s.get("allOf"):
                     continue
                 style = s.get("allof_style", "member")
-                site = {"style": style, "own_props": bool(s.get("props")), "extra_required": bool(s.get("extra_required"))}
+                site = {"style": style, "own_props": bool(s.get("props")), "extra_required": _promotes_inherited(s, comps)}
                 cls = getattr(models, name, None)
                 if cls is None:
                     if name in res.diag_text():
